@@ -14,6 +14,7 @@ func init() {
 
 func checkC11(r *Report, p *Program) {
 	rmwOperands(r, p, "R11.9")
+	smallVerbClauses(r, p, "R11.11")
 	failedResultNotUsed(r, p, "R11.10") // a panic in child reconciliation unwinds past the status write
 	r.Explanation = "Decides how the parent status write is wired, on all paths: (R11.1) once the composite sync entry has got past the hook and label checks, every path to a return passes updateParentStatus — whether ManageChildren ran, failed or was skipped — and ManageChildren's error is only returned afterwards; (R11.2) updateParentStatus stores observedGeneration = generation of the parent it was given (the one sent to the hook) into the hook's status (an empty map when null) before AtomicStatusUpdate; the status handed in is syncResult.Status, which on the rolling path is the latest revision's; the update closure's only mutation is content[\"status\"] = status and it reports no change when DeepEqual; (R11.3) AtomicStatusUpdate: live Get (zero GetOptions), UID comparison and write all inside the RetryOnConflict callback, UpdateStatus exactly on HasSubresource(\"status\"), Update otherwise; Reconcile starts no controller for a parent CRD without status subresource; discovery registers subresources only after a group's resource table is complete; (R11.4) the status-write error is dropped only under IsNotFound/IsConflict."
 	r.NotDecided = "equality of the stored status with the hook's value; behaviour under injected conflicts; API-server semantics of the status endpoint."
